@@ -145,6 +145,10 @@ func hashByName(n string) crypto.Hash {
 		return crypto.SHA512
 	case "sha512_256":
 		return crypto.SHA512_256
+	case "sha512_224":
+		return crypto.SHA512_224
+	case "sha224":
+		return crypto.SHA224
 	}
 	return crypto.BLAKE2b_256
 }
@@ -357,7 +361,7 @@ func TestVerifDriver(t *testing.T) {
 			}
 			do("merkle.Hash", M{"leaves": leaves, "fail": fail})
 			do("merkle.Big", M{"n": 300 + r.Intn(3000), "hash": []string{"sha256", "blake2b", "sha512", "sha384", "sha512_256"}[k%5]})
-			do("merkle.Big", M{"n": r.Intn(12), "hash": []string{"sha512", "sha384", "sha512_256", "sha256", "blake2b"}[k%5]})
+			do("merkle.Big", M{"n": r.Intn(12), "hash": []string{"sha512", "sha384", "sha512_256", "sha256", "blake2b", "sha512_224", "sha224"}[k%7]})
 			do("merkle.Empty", M{"hash": []string{"sha256", "blake2b", "sha512"}[k%3]})
 			if vHasWB("merkle.lp2") {
 				do("merkle.lp2", M{"n": 2 + r.Intn(1<<30)})
